@@ -84,7 +84,15 @@ class Template:
         self._parse(open(path).read())
 
     def _parse(self, text):
-        lines = text.split("\n")
+        lines = []
+        for ln in text.split("\n"):
+            if ln.strip().startswith("//@include "):
+                inc = os.path.join(os.path.dirname(self.path), ln.strip().split()[1])
+                lines.append("// ---- begin include %s" % ln.strip().split()[1])
+                lines += open(inc).read().rstrip("\n").split("\n")
+                lines.append("// ---- end include")
+            else:
+                lines.append(ln)
         cur = []
         cur_start = 1
         i = 0
@@ -170,7 +178,7 @@ def apply_rules(text, item, tmpl, fired):
         else:
             m = re.match(r"(\w+)\((.*)\)$", r.pattern)
             fn = getattr(pyrules, m.group(1))
-            args = [a.strip() for a in m.group(2).split(",")] if m.group(2).strip() else []
+            args = [a.strip() for a in m.group(2).split(";;")] if m.group(2).strip() else []
             new, n = fn(text, *args)
         fired.append({"rule": rn, "item": item.id, "hits": n, "why": r.why})
         text = new
